@@ -9,7 +9,7 @@
    unrelated frame (stale sequence number) before the reply to the datagrams listed in
    [c_stale c] - provided max_retries allows reading past it ([stale_ok c]: no such
    frames, or max_retries >= 1).  Granularity: one step per access to shared state (lock, socket,
-   next_sequence_number); below that (CPython byte code, the GIL) is not modelled. *)
+   next_sequence_number) plus one for the code between the release and the return; below that (CPython byte code, the GIL) is not modelled. *)
 From Coq Require Import NArith List.
 From PyIpmi Require Import Lib.Res Model.Threads Proofs.ThreadsProofs.
 Import ListNotations.
@@ -82,7 +82,7 @@ Print Assumptions C14_no_deadlock.
    carry rq_seq 1 and identical netfn/cmd, both threads finish with their own reply
    (payloads 0 and 1), session sequence 6 then 7 *)
 Example C14_duplicate_rq_seq :
-  let g := exec (mkCfg 0 true []) [0;1;0;1;0;1;1;1;1;1;0;0;0;0]%nat
+  let g := exec (mkCfg 0 true []) [0;1;0;1;0;1;1;1;1;1;1;0;0;0;0;0]%nat
                 (init 0 5 [[mkTReq 6 1]; [mkTReq 6 1]]) in
   rev (g_wire g) = [Sent 1%nat 0%nat 6 1 (mkTReq 6 1); Rcvd 1%nat (mkFrame 1 7 1 0);
                     Sent 0%nat 0%nat 7 1 (mkTReq 6 1); Rcvd 0%nat (mkFrame 1 7 1 1)]
@@ -95,7 +95,7 @@ Proof. vm_compute. repeat split; reflexivity. Qed.
    gets its own reply *)
 Example C14_stale_frame_dropped :
   let c := mkCfg 1 true [0] in
-  let g := exec c [0;0;0;0;0;0;0;0]%nat (init 0 5 [[mkTReq 6 1]]) in
+  let g := exec c [0;0;0;0;0;0;0;0;0]%nat (init 0 5 [[mkTReq 6 1]]) in
   stale_ok c
   /\ rev (g_wire g) = [Sent 0%nat 0%nat 6 1 (mkTReq 6 1); Rcvd 0%nat (mkFrame 0 7 1 100);
                        Rcvd 0%nat (mkFrame 1 7 1 0)]
